@@ -196,10 +196,12 @@ class FnSpec:
         self.loops = {}       # n -> dict(invariant=[], ensures=[], decreases=[], attr=[])
         self.anchors = []     # (where, text, nth, [ghost lines])
         self.known = {}       # id -> dict(requires=[], ensures=[], loops={}, bodysubs=[])
+        self.part = None      # ('closure', n) | ('before', text): rule E8, a sub-expression of the body becomes the body
+        self.sig = None       # signature text to use with `part`
         self.ghost_tag = {}
 
 
-SECTION_RE = re.compile(r'^(props|safety|attr|mode|sigsub|bodysub|ret|requires|ensures|head|tail|loop\s+\d+|after\s+".*"\s*(?:#\d+)?|before\s+".*"\s*(?:#\d+)?|known\s+\w+)\s*:\s*(.*)$')
+SECTION_RE = re.compile(r'^(props|safety|attr|mode|sigsub|bodysub|ret|part|sig|requires|ensures|head|tail|loop\s+\d+|after\s+".*"\s*(?:#\d+)?|before\s+".*"\s*(?:#\d+)?|known\s+\w+)\s*:\s*(.*)$')
 TAG_RE = re.compile(r'^\[([A-Z0-9, ]*?)(?:\s+([A-Za-z0-9_.-]+))?\]\s*(.*)$', re.S)
 
 
@@ -266,6 +268,15 @@ def parse_fn_block(header, lines):
             fn.mode = first
         elif key == 'ret':
             fn.ret = first
+        elif key == 'part':
+            mt = re.match(r'closure\s+(\d+)$', first)
+            if mt:
+                fn.part = ('closure', int(mt.group(1)))
+            else:
+                mt = re.match(r'before\s+"(.*)"$', first)
+                fn.part = ('before', mt.group(1))
+        elif key == 'sig':
+            fn.sig = first
         elif key in ('sigsub', 'bodysub'):
             for b in body:
                 b = b.strip()
@@ -511,7 +522,24 @@ class Generator:
         self.record_item(src, 'fn', fn.qual, loc['start'], loc['body_close'] + 1)
         sig = src.text[loc['start']:loc['body_open']]
         body = src.text[loc['body_open'] + 1:loc['body_close']]
-        body_line0 = src.text.count('\n', 0, loc['body_open'] + 1) + 1
+        body_off = loc['body_open'] + 1
+        if fn.part:
+            # rule E8: lift a closure body / the receiver expression in front of it into a function of its own
+            bm0 = mask(body)
+            if fn.part[0] == 'closure':
+                cl = [mt for mt in re.finditer(r'\|[^|]*\|\s*\{', bm0)]
+                if fn.part[1] > len(cl):
+                    raise LostAnchor('%s: closure %d not found' % (fn.qual, fn.part[1]))
+                mt = cl[fn.part[1] - 1]
+                o = mt.end() - 1
+                c = match_close(bm0, o)
+                body_off += o + 1
+                body = body[o + 1:c]
+            else:
+                a_, b_, _fz = find_anchor(body, bm0, fn.part[1], 1)
+                body = body[:a_]
+            sig = fn.sig + ' '
+        body_line0 = src.text.count('\n', 0, body_off) + 1
         variants = [(None, fn.opts.get('as', fn.name))]
         for kid in (fn.known if fn.mode != 'external_body' else []):
             variants.append((kid, fn.opts.get('as', fn.name) + '__kf_' + kid))
